@@ -1199,6 +1199,23 @@ def single_ops(shape_nodes, univ, typed=False, families=None):
     return res
 
 
+# deeper shapes than the exhaustive bound reaches: two siblings at depth 3 / 4, a wide level below a chain
+EXTRA_SHAPES = [((((), ()),),), (((((), ()),),),), (((), ((), ())), ((), ())), ((((), (), ()),), ())]
+
+
+def gen_shapes(shapes, *, labelings=("distinct", "equal"), typed=(False,), families=None):
+    """Like gen_exhaustive, for an explicit list of forest shapes."""
+    for shape in shapes:
+        n = H.shape_size(shape)
+        for lname in labelings:
+            mk_univ, labeler = LABELINGS[lname]
+            for ty in typed:
+                univ = mk_univ(n)
+                nodes = B.shape_to_nodes(shape, (lambda i, d, s: (labeler(i, d, s)[0], "k1" if ty else None, labeler(i, d, s)[2])))
+                setup = [["new", ty, None]] + setup_ops(nodes, 0, ty)
+                yield dict(univ=univ, setup=setup, alts=single_ops(nodes, univ, ty, families), label=lname + "/extra", n=n)
+
+
 def gen_exhaustive(nmax, *, labelings=("distinct", "equal", "clones"), typed=(False,), families=None, nmin=0):
     """Yields groups dict(univ=, setup=[ops], alts=[op*]): every single op with every argument
     on every ordered forest with nmin..nmax nodes."""
